@@ -85,7 +85,7 @@ TEnd == /\ Ev.e = "End"
         \* a failure that happens while the service loop is still running - even if shutdown()
         \* has already been asked for - meets runners that are all still open
         /\ marks' = [marks EXCEPT !.earlyfail = @ \/ (Ev.how \in {"val", "exc", "base"} /\ phase[1] = "running" /\ ~marks.loopexited /\ ~sigint)]
-        /\ nc' = (nc \/ ~End(Ev.p, Ev.how))
+        /\ nc' = (nc \/ ~(End(Ev.p, Ev.how) \/ AnswerCancel(Ev.p, Ev.how)))
 TCancelled == /\ Ev.e = "Cancelled"
               /\ pst' = [pst EXCEPT ![Ev.p] = IF cleanleft[Ev.p] = 0 THEN "done" ELSE "cancelled"]
               /\ endhow' = [endhow EXCEPT ![Ev.p] = "cancelled"]
